@@ -9,6 +9,7 @@ import Drive.Dma
 import Drive.Alu
 import Drive.Regs
 import Drive.Asm
+import Drive.Bus
 /-!
 Line-protocol driver for the executable model: one request per line on stdin, one response per
 line on stdout.  `<unit> <op> <hex args…>`.
@@ -25,6 +26,7 @@ structure St where
   dma : DmaSt := {}
   regs : RegsSt := default
   asm : AsmSt := {}
+  bus : Drive.BusDrive.BusSt := {}
 
 def stepLine (st : St) (line : String) : St × String :=
   match (line.trimAscii.toString.splitOn " ").filter (· ≠ "") with
@@ -39,6 +41,7 @@ def stepLine (st : St) (line : String) : St × String :=
   | "alu" :: args => (st, aluStep args)
   | "regs" :: args => let (r, out) := regsStep st.regs args; ({ st with regs := r }, out)
   | "asm" :: args => let (a, out) := asmStep st.asm args; ({ st with asm := a }, out)
+  | "bus" :: args => let (b, out) := Drive.BusDrive.busStep st.bus args; ({ st with bus := b }, out)
   | [] => (st, "")
   | _ => (st, "bad-unit")
 
